@@ -647,6 +647,8 @@ type fedEngineOpts struct {
 	Minify       bool
 	customize    func(conf *engine.Configuration)
 	resolverOpts func(o *resolve.ResolverOptions)
+	// subClient(engine) replaces the WebSocket / SSE subscription client of every subgraph (scripted event sources)
+	subClient func(fe *fedEngine) graphql_datasource.GraphQLSubscriptionClient
 }
 
 type fedEngine struct {
@@ -673,8 +675,12 @@ func fedNewEngine(l *fedLayout, opts fedEngineOpts) (*fedEngine, error) {
 	var dss []plan.DataSource
 	for _, sg := range l.Subs {
 		client := &http.Client{Transport: &fedTransport{sub: sg, cur: fe.current}}
-		factory, err := graphql_datasource.NewFactory(context.Background(), client, graphql_datasource.NewGraphQLSubscriptionClient(context.Background(),
-			graphql_datasource.WithUpgradeClient(client), graphql_datasource.WithStreamingClient(client)))
+		var subClient graphql_datasource.GraphQLSubscriptionClient = graphql_datasource.NewGraphQLSubscriptionClient(context.Background(),
+			graphql_datasource.WithUpgradeClient(client), graphql_datasource.WithStreamingClient(client))
+		if opts.subClient != nil {
+			subClient = opts.subClient(fe)
+		}
+		factory, err := graphql_datasource.NewFactory(context.Background(), client, subClient)
 		if err != nil {
 			return nil, err
 		}
@@ -684,6 +690,7 @@ func fedNewEngine(l *fedLayout, opts fedEngineOpts) (*fedEngine, error) {
 		}
 		cfg, err := graphql_datasource.NewConfiguration(graphql_datasource.ConfigurationInput{
 			Fetch:               &graphql_datasource.FetchConfiguration{URL: "https://" + sg.Name + "/", Method: "POST"},
+			Subscription:        &graphql_datasource.SubscriptionConfiguration{URL: "wss://" + sg.Name + "/"},
 			SchemaConfiguration: schemaCfg,
 		})
 		if err != nil {
